@@ -106,3 +106,14 @@ prop("C19", "exploration", (40, 600),
           "identical pre-grinding transcripts across schedules, and full cross-acceptance of proofs between nodes (also for blinded circuits).",
      note="Thread scheduling is simulated (linearised fork-join); hash seeds are fixed per variant by CONST_RANDOM_SEED (4 seeds, not all); programs avoid BaseSumGate<B!=2>, which the default gate serializer cannot encode.",
      variants={"quick": ["v0", "v1"], "thorough": ["v0", "v1", "v2", "v3"]}, driver=True)
+
+prop("C17", "exploration", (240, 5000),
+     rule="one run = crash/restart of one seeded circuit (programs over the gates and generators registered in the default serializers, lookups, zk, all configurations; Poseidon): "
+          "every encodable state (proof, compressed proof, verifier-only, common, verifier circuit data, prover circuit data, whole circuit) is written, decoded by a fresh value, "
+          "compared (Eq), re-encoded (byte-identical), and the restored circuit is exercised against the original in both directions (witness generation with the same entropy, "
+          "restored prover -> original verifier, original proof -> restored circuit and restored verifier, digests). I/O faults: truncated input at first/last/boundary/random prefixes "
+          "(every prefix for ~1% of thorough runs) must not decode; a write error after k bytes must surface as Err. A case = one such check; distinct = (scenario, state, fault offset)",
+     technique="deterministic simulation: crash/restart from serialized state through the crate's Read/Write seams with injected truncation and write errors; interchangeability oracle",
+     text="Seeded exploration of save/restore: each party's durable state goes through the Write seam, the process state is dropped, a fresh value is restored from bytes and must be "
+          "equal, re-encode identically and be interchangeable with the original for witness generation, proving and verifying; truncated inputs and failing writers are injected.",
+     note="Equality of generators/gates in the library is by id only, so interchangeability (not Eq) is the deciding oracle. The tail of the compressed-proof encoding (unprefixed public inputs) is exempt from the truncation oracle by format design.")
